@@ -6,6 +6,7 @@ package main
 
 import (
 	"encoding/json"
+	"sort"
 	"fmt"
 	"os"
 	"runtime/debug"
@@ -27,6 +28,9 @@ func realMain() (code int) {
 		return 2
 	}
 	prop := args[0]
+	if prop == "ALL" || strings.Contains(prop, ",") {
+		return multiMain(prop, args[1:])
+	}
 	repo, verif, replay := "/repo", "/verif", ""
 	tier := "quick"
 	selftest := true
@@ -99,10 +103,63 @@ func realMain() (code int) {
 		run.Variants = append(run.Variants, v.Name)
 		run.Count("packages", len(prog.Pkgs))
 		fn(run, prog)
+		rules.RunIncludes(run, prog, prop)
 	}
 	if tier == "thorough" && selftest && replayKey == "" {
 		rules.SelfTest(run, prop, repo, verif)
 	}
 	_ = strings.TrimSpace
 	return run.Finish(replayKey)
+}
+
+// multiMain evaluates several properties in one process on one loaded program (used by the corpus tools; the registered
+// commands always run one property). Prints one summary line per property; exit code is the worst one.
+func multiMain(list string, args []string) int {
+	repo, verif := "/repo", "/verif"
+	for i := 0; i < len(args); i++ {
+		switch args[i] {
+		case "--repo":
+			i++
+			repo = args[i]
+		case "--verif":
+			i++
+			verif = args[i]
+		}
+	}
+	var props []string
+	if list == "ALL" {
+		for p := range rules.Registry {
+			props = append(props, p)
+		}
+	} else {
+		props = strings.Split(list, ",")
+	}
+	sort.Strings(props)
+	prog, err := core.Load(repo, core.DefaultVariant)
+	if err != nil {
+		fmt.Println("CHECKER-BROKEN: load:", err)
+		return 2
+	}
+	worst := 0
+	for _, prop := range props {
+		code := func() (code int) {
+			defer func() {
+				if r := recover(); r != nil {
+					fmt.Printf("CHECKER-BROKEN: %s: panic in rule code: %v\n", prop, r)
+					code = 2
+				}
+			}()
+			own := rules.OwnRun(prop, prog, "quick", 0, verif)
+			run := core.NewRun(prop, "quick", 0, verif)
+			run.Prog = prog
+			run.Variants = []string{core.DefaultVariant.Name}
+			run.AdoptFrom(own)
+			rules.RunIncludes(run, prog, prop)
+			return run.Finish("")
+		}()
+		if code > worst {
+			worst = code
+		}
+	}
+	return worst
 }
